@@ -180,6 +180,22 @@ def _work(task):
     return acc
 
 
+SPARSE_MENU = ([(0,), (1,), (6,), (11,)] + [(0, n) for n in range(5)] + [(6, n) for n in range(5)] +
+               [(0, n, 0) for n in range(5)] + [(0, n, 3) for n in range(5)] + [(6, n, 0) for n in range(5)] +
+               [(0, 0, 1), (0, 0, 2), (3, 2, 1, 0), (3, 2, 1, 1), (3, 2, 1, 2), (3, 2, 1, 3), (11, 4, 3), (11, 4, 2)])
+
+
+def sparse_states(size):
+    """every antichain of at most `size` cells over SPARSE_MENU: sparse, scattered inputs that no short edit sequence from a full
+    cover reaches (e.g. the first children of four neighbouring segments)"""
+    import itertools
+    menu = sorted(SPARSE_MENU)
+    for n in range(1, size + 1):
+        for combo in itertools.combinations(menu, n):
+            if rm.is_antichain(combo):
+                yield tuple(sorted(combo))
+
+
 def explore(which, tier, acc):
     """BFS in this process, oracle evaluation in the pool; returns (states, bfs transitions)"""
     import multiprocessing
@@ -211,6 +227,21 @@ def explore(which, tier, acc):
                 flush(batch)
             total_edges += getattr(lattice.bfs, 'transitions', 0)
             acc.notes.append(f'base [{key_of(tuple(sorted(base)))}] explored to edit depth {k}, splits down to resolution {max_res}')
+        # second family: all small antichains over a menu
+        size = 4 if tier == 'quick' else 5
+        batch = []
+        nsp = 0
+        for st in sparse_states(size):
+            nsp += 1
+            batch.append((st, (('sparse', ()),)))
+            if len(batch) >= 500:
+                flush(batch)
+                batch = []
+        if batch:
+            flush(batch)
+        total_states += nsp
+        acc.n['sparse_antichains'] = nsp
+        acc.notes.append(f'all {nsp} antichains of <= {size} cells over a {len(SPARSE_MENU)}-cell menu (faces 0/1/6/11, all segments of faces 0 and 6, their first/last children, a res-3 sibling group)')
         for p in pending:
             acc.merge(p.get())
     acc.n['lattice_states'] = total_states
